@@ -313,7 +313,14 @@ func (t *relTotals) roundTripFlag(stream string, doc JV, ec *EvalCase) {
 		return
 	}
 	e2, _ := ser.MarshalFeatureFlag(v2)
-	d1, d2 := flagDumpJSON(&v), flagDumpJSON(&v2)
+	// fixed point after one step: encode(RT v) = encode v (canonical JSON) and RT(RT v) = RT v
+	// (deeply equal). v itself may differ from RT v only in what encode documents as droppable
+	// (a rollout without buckets); that this cannot change evaluation is checked below.
+	v3, err3 := ser.UnmarshalFeatureFlag(e2)
+	d1, d2 := flagDumpJSON(&v2), ""
+	if err3 == nil {
+		d2 = flagDumpJSON(&v3)
+	}
 	if !sameJSONBytes(e1, e2) || d1 != d2 {
 		// open finding F5: a negative debugEventsUntilDate wraps around and needs two steps
 		if dv := doc.get("debugEventsUntilDate"); dv != nil && dv.K == 'n' && dv.N < 0 && onlyDebugDiffers(&v, &v2) {
@@ -372,9 +379,10 @@ func (t *relTotals) roundTripSegment(stream string, doc JV) {
 		return
 	}
 	e2, _ := ser.MarshalSegment(v2)
-	if !sameJSONBytes(e1, e2) || segDumpJSON(&v) != segDumpJSON(&v2) {
+	v3, err3 := ser.UnmarshalSegment(e2)
+	if !sameJSONBytes(e1, e2) || err3 != nil || segDumpJSON(&v2) != segDumpJSON(&v3) {
 		t.violation(stream, "decode(encode(v)) is not a fixed point after one step (segment)", map[string]any{"doc": docText(doc), "encoded1": string(e1), "encoded2": string(e2),
-			"v": json.RawMessage(segDumpJSON(&v)), "rt": json.RawMessage(segDumpJSON(&v2))})
+			"v": json.RawMessage(segDumpJSON(&v2)), "rt": json.RawMessage(segDumpJSON(&v3))})
 	}
 }
 
